@@ -95,11 +95,13 @@ pub struct CMatch {
     pub chaos_pct: u32,
     pub coh_pct: u32,
     pub lang: String,
+    /// per alternative (sub-match), in order: `chaos~bom~text~coherences` as the alternative itself reports them
+    pub subd: Vec<String>,
 }
 impl CMatch {
     pub fn show(&self) -> String {
         format!(
-            "{}|{}|{}|{}|{}|{}|{}|{}|{}|{}",
+            "{}|{}|{}|{}|{}|{}|{}|{}|{}|{}|{}",
             self.enc,
             if self.subs.is_empty() { "-".to_string() } else { self.subs.join(",") },
             self.chaos,
@@ -116,12 +118,13 @@ impl CMatch {
             self.mbu,
             self.chaos_pct,
             self.coh_pct,
-            self.lang
+            self.lang,
+            if self.subd.is_empty() { "-".to_string() } else { self.subd.join(",") }
         )
     }
     pub fn parse(s: &str) -> Option<CMatch> {
         let p: Vec<&str> = s.split('|').collect();
-        if p.len() != 10 {
+        if p.len() != 11 {
             return None;
         }
         Some(CMatch {
@@ -149,6 +152,7 @@ impl CMatch {
             chaos_pct: p[7].parse().ok()?,
             coh_pct: p[8].parse().ok()?,
             lang: p[9].to_string(),
+            subd: if p[10] == "-" { vec![] } else { p[10].split(',').map(|x| x.to_string()).collect() },
         })
     }
     pub fn cands(&self) -> Vec<String> {
@@ -170,6 +174,23 @@ pub fn canon_match(m: &CharsetMatch) -> CMatch {
         chaos_pct: fbits(m.chaos_percents()),
         coh_pct: fbits(m.coherence_percents()),
         lang: format!("{}", m.most_probably_language()),
+        subd: m
+            .submatch()
+            .iter()
+            .map(|x| {
+                let coh = vh::match_coherences(x);
+                format!(
+                    "{}~{}~{}~{}",
+                    fbits(x.chaos()),
+                    if x.bom() { 1 } else { 0 },
+                    match x.decoded_payload() {
+                        None => "none".to_string(),
+                        Some(t) => format!("{}:{}", text_hash(t), t.chars().count()),
+                    },
+                    if coh.is_empty() { "-".to_string() } else { coh.iter().map(|(l, s)| format!("{}={}", l, fbits(*s))).collect::<Vec<_>>().join(";") }
+                )
+            })
+            .collect(),
     }
 }
 
